@@ -735,8 +735,41 @@ func (g *G) mutableIntVars() []gvar {
 }
 
 func (g *G) genStmt(depth int) []Stmt {
-	kind := g.intRange(0, 19, "skind")
+	kind := g.intRange(0, 20, "skind")
 	switch kind {
+	case 20: // a boundary value of a narrow type widened to every type that can hold it (the extension must follow the source's signedness)
+		if g.use("cast.widen_boundary_value") {
+			var srcs []*Type
+			for _, s := range g.ints {
+				if s.Bits <= 32 {
+					srcs = append(srcs, s)
+				}
+			}
+			if len(srcs) > 0 {
+				s := srcs[g.intRange(0, len(srcs)-1, "bcsrc")]
+				lo, hi := s.Range()
+				v := []*big.Int{lo, hi, new(big.Int).Sub(hi, big.NewInt(int64(g.intRange(0, 9, "bcoff")))), big.NewInt(-1)}[g.intRange(0, 3, "bcval")]
+				if v.Cmp(lo) < 0 {
+					v = hi
+				}
+				n := g.fresh("bc")
+				out := []Stmt{&Let{Name: n, T: s, Init: &Lit{T: s, I: v}}}
+				g.declare(n, s, true)
+				var args []Expr
+				for _, t := range g.ints {
+					if t.Bits > s.Bits && t.Bits <= 64 && (s.Signed == t.Signed || (!s.Signed && t.Signed)) {
+						args = append(args, &Cast{T: t, X: &Var{T: s, Name: n}})
+					}
+				}
+				if len(args) > 4 {
+					args = args[:4]
+				}
+				if len(args) > 0 {
+					return append(out, &Print{Args: args})
+				}
+				return out
+			}
+		}
 	case 0, 1: // new int / bool variable
 		if g.chance(4, "boolvar") {
 			n := g.fresh("b")
